@@ -90,15 +90,19 @@ def run(ctx):
     cfgs += [('stream', 'mem', 3, 2), ('stream', 'memstr', 5, 3), ('stream', 'sql', 10, 4)]
   cfgs.append(('get', 'memstr', 6, 3))
   cfgs.append(('get', 'subsetdup', 3, 2))
+  cfgs.append(('stream', 'subset', 5, 3))
+  cfgs.append(('get', 'mem', 70000, 3))       # a large population (more than 2^16 clients)
   per_cfg = (len(get_h) // 4) if big else 60
   trs = []
   intern_out, intern_key = Interner(), Interner()
   pending = []
   for ci, (kind, fdk, n, cohort) in enumerate(cfgs):
     seed = rng.randint(0, 10**6)
+    if kind == 'stream' and ci % 3 == 0:
+      seed = 0          # "all seeds": zero is a seed like any other
     buffer = rng.choice([1, 3, n + 2])
     pool = get_h if kind == 'get' else str_h
-    hists = [pool[(ci * 131 + j) % len(pool)] for j in range(min(per_cfg, len(pool)))]
+    hists = [pool[(ci * 131 + j) % len(pool)] for j in range(min(per_cfg if n <= 1000 else 15, len(pool)))]
     # plus longer random histories
     for _ in range(20 if big else 6):
       h = []
@@ -113,9 +117,12 @@ def run(ctx):
     for h in hists:
       ops.append({'op': 'new', 'r': 0})
       ops.extend({k: v for k, v in o.items() if k in ('op', 'r')} for o in h)
-    job = {'kind': kind, 'fd_kind': fdk, 'ids': [c.hex() for c in IDS[:n]], 'path': paths[n], 'cohort': cohort,
+    ids_n = IDS[:n] if n <= len(IDS) else [b'%06d' % i_ for i_ in range(n)]
+    job = {'kind': kind, 'fd_kind': fdk, 'ids': [c.hex() for c in ids_n], 'path': paths.get(n), 'cohort': cohort,
            'seed': seed, 'buffer': buffer, 'ops': ops}
     seeds = [0, 1, 4242] if (ci % 2 == 0 or big) else [0, 7]
+    if n > 1000:
+      seeds = [0]
     pending.append((ci, kind, cohort, fdk, n, seed, buffer, hists, [(hs, job) for hs in seeds]))
   import concurrent.futures as cf
   with cf.ThreadPoolExecutor(max_workers=12) as ex:
